@@ -28,6 +28,8 @@ META = {
         "Pyoda.C20.short_header_rejected", "Pyoda.C20.truncation_inside_field",
         "Pyoda.C20.readN_consumes", "Pyoda.C20.readNTicks_linear", "Pyoda.C20.readFields_fuel_irrelevant",
         "Pyoda.C20.element_readers_progress",
+        "Pyoda.C20.truncation_anywhere", "Pyoda.C20.loadAndUse_work_bound", "Pyoda.C20.payloads_fit",
+        "Pyoda.C20.fromStream_as_written", "Pyoda.C20.forId_as_written", "Pyoda.C20.loadAndUseRaw_outcome",
     ],
     "trusted_base": [
         "io.BytesIO read semantics; struct.unpack('i') of four bytes is 0 iff all four are 0",
@@ -35,7 +37,7 @@ META = {
         "wall-clock and memory limits are enforced by the harness (20 s alarm per call, 6 s for the id-map rewiring family; RLIMIT_AS = 1.5 GiB above the worker's mapped size), not proved",
     ],
     "partial": [
-        "steps are bounded per reader loop (readN, readFields) on the model; no bound in seconds, no whole-run linear bound (k aliases of one large zone cost k decodes)",
+        "work bound: loadAndUse_work_bound bounds the bytes handed to decoders by |bytes|*(2 + #ids) (the alias factor is necessary: k aliases of one zone decode it k times) and the reader loops are bounded by the bytes they are given (readNTicks_linear, readFields_fuel_irrelevant); no bound in seconds; big-integer work of over-long varints is outside the count",
         "the fault space (every prefix x every <=4-byte corruption of two files) is sampled: all field boundaries and 3 cuts per field exhaustively, corruptions by seeded sampling stratified over the regions of the file",
     ],
     "rule": "distinct = distinct fault (file, edit script) / distinct op line; non-trivial = every fault (each damages the stream); "
